@@ -270,6 +270,13 @@ func c05InitPairs() {
 	add("NewPHash64Alt(4:2:0 || 4:4:4)", func(w int) string { return hashOutcome(hashSizes[0].alt(imgs420[w])) })
 	add("NewPHash64(4:2:0 || 4:4:4)", func(w int) string { return hashOutcome(hashSizes[0].primary(imgs420[w])) })
 	add("NewPHash256", func(w int) string { return hashOutcome(hashSizes[1].primary(imgs2[w])) })
+	// one opaque image and one with fully transparent pixels (a conversion may not leave those to the buffer's previous user)
+	imgsH := [2]image.Image{buildImage(kRGBA, 0, 64, cs[30]), buildImage(kNRGBAHoles, 0, 64, cs[len(cs)-4])}
+	add("NewPHash64Alt(opaque || transparent pixels)", func(w int) string { return hashOutcome(hashSizes[0].alt(imgsH[w])) })
+	add("NewPHash64(opaque || transparent pixels)", func(w int) string { return hashOutcome(hashSizes[0].primary(imgsH[w])) })
+	imgsH2 := [2]image.Image{buildImage(kGray, 0, 256, c2[11]), buildImage(kNRGBAHoles, 0, 256, c2[len(c2)-3])}
+	add("NewPHash256Alt(opaque || transparent pixels)", func(w int) string { return hashOutcome(hashSizes[1].alt(imgsH2[w])) })
+	add("NewPHash256(opaque || transparent pixels)", func(w int) string { return hashOutcome(hashSizes[1].primary(imgsH2[w])) })
 	imgs3 := [2]image.Image{buildImage(kRGBA, 0, 64, cs[33]), buildImage(kYCbCr, 0, 64, cs[len(cs)-3])}
 	add("EncodeBlurHashFast", func(w int) string { s, err := imagehash.EncodeBlurHashFast(imgs3[w]); return s + "|" + errStr(err) })
 	add("NewAHash", func(w int) string {
